@@ -298,7 +298,7 @@ class C18(Prop):
                         'schedule': [1]}
             return {'calls': calls, 'fresh_grammars': draw(st.integers(0, 5)) == 0, 'pristine': draw(st.integers(0, 2)) == 0,
                     'stress': tier == 'thorough' and draw(st.integers(0, 3)) == 0,
-                    'cold': draw(st.sampled_from([None] * 8 + ['sequential', 'threaded', 'aborted-first'])),
+                    'cold': draw(st.sampled_from([None] * 6 + ['sequential', 'threaded', 'threaded', 'aborted-first'])),
                     'schedule': draw(st.lists(st.integers(1, 120), min_size=8, max_size=60))}
         return case()
 
